@@ -263,10 +263,13 @@ def concurrent_records(ctx):
     seen = [[dict(dab=set(), dba=set(), jab=set(), jba=set()) for _ in pairs] for pairs in work]
     errors = []
     stop = threading.Event()
+    rounds = [0] * nthreads
+    target = 2500 if ctx.tier == 'quick' else 20000          # every thread completes at least this many rounds (work-based: a busy machine just takes longer)
 
     def body(t):
         try:
             while not stop.is_set():
+                rounds[t] += 1
                 for j, (A, B, dta, dtb, a, b) in enumerate(work[t]):
                     s = seen[t][j]
                     s['dab'].add(float(jaccarddist(a, b))); s['dba'].add(float(jaccarddist(b, a)))
@@ -281,7 +284,9 @@ def concurrent_records(ctx):
         for th in threads:
             th.start()
         import time
-        time.sleep(secs)
+        t_end = time.time() + 8 * secs
+        while time.time() < t_end and (min(rounds) < target) and not errors:
+            time.sleep(0.05)
         stop.set()
         for th in threads:
             th.join()
